@@ -17,6 +17,7 @@ type divCall struct {
 	Pre    [][2]uint `json:"pre"`
 	V1     [][2]uint `json:"v1"`
 	V1Nil  bool      `json:"v1nil"`
+	V1In   [][2]uint `json:"v1in"` // the distribution handed to the v1 divider, after the call ("otherwise it must be updated and returned")
 	V2     [][2]uint `json:"v2"`
 	V2Nil  bool      `json:"v2nil"`
 }
@@ -35,6 +36,7 @@ func callDividers(fn string, ps []uint, d uint, pre map[uint]uint) divCall {
 		divider.Rate(psV2, d, in2)
 	}
 	c.V1, c.V1Nil = pairs(r1), r1 == nil
+	c.V1In = pairs(in1)
 	c.V2, c.V2Nil = pairs(in2), in2 == nil
 	return c
 }
